@@ -966,6 +966,8 @@ class Interp:
             for ga, o in v.alts:
                 items += [(self.c.and2(ga, gi), x) for gi, x in self.to_iter(o, g).items]
             return IterV(items)
+        if v is UNDEF:
+            return IterV([])          # the value of a diverged path (e.g. `.expect()` on Err: the panic event is recorded there)
         raise Unsupported("iteration over %r" % (v,))
 
     def vec_items(self, v, g):
